@@ -19,13 +19,56 @@ class Unknown(Exception):
 
 
 class _Return(Exception):
-    def __init__(self, v):
+    def __init__(self, v, of=None):
         self.v = v
+        self.of = of          # set when the `return` / `?` belongs to a helper that was inlined: it leaves that helper's block only
+
+
+class _Continue(Exception):
+    pass
+
+
+ANY = ("any",)                # an element of an iteration that is run once abstractly: matches every pattern
 
 
 class _Break(Exception):
     def __init__(self, v):
         self.v = v
+
+
+class Env(dict):
+    """a scope: lookups fall through to the enclosing scope, `let` binds here, an assignment updates the scope that holds the variable"""
+    def __init__(self, parent=None):
+        super().__init__()
+        if isinstance(parent, Env):
+            self.parent = parent
+        else:
+            self.parent = None
+            if parent:
+                dict.update(self, parent)
+
+    def __missing__(self, k):
+        if self.parent is not None:
+            return self.parent[k]
+        raise KeyError(k)
+
+    def __contains__(self, k):
+        return dict.__contains__(self, k) or (self.parent is not None and k in self.parent)
+
+    def get(self, k, d=None):
+        try:
+            return self[k]
+        except KeyError:
+            return d
+
+    def assign(self, k, v):
+        e = self
+        while e is not None:
+            if dict.__contains__(e, k):
+                dict.__setitem__(e, k, v)
+                return
+            e = e.parent
+        self[k] = v
 
 
 def C(name, *args):
@@ -61,7 +104,7 @@ def show(v):
 
 
 class Interp:
-    def __init__(self, consts=None, hooks=None, fields=None):
+    def __init__(self, consts=None, hooks=None, fields=None, loops=None):
         """consts: {constant name: value}; hooks: {(method or fn last segment): f(interp, recv, args) -> value or NotImplemented};
         fields: {(base description, field): value} resolved through `field_hook`"""
         self.consts = consts or {}
@@ -69,12 +112,17 @@ class Interp:
         self.fields = fields or {}
         self.steps = 0
         self.assigned = {}
+        self.loops = loops        # None: loops are outside the fragment; "once" / "zero": every loop body runs exactly once / not at all
 
     # ------------------------------------------------------------------ patterns
     def bind(self, pat, v, env):
         """match value against pattern; returns True and extends env on success"""
         k = pat.get("k")
         if k == "wild":
+            return True
+        if v == ANY and k != "bind":
+            for b_ in _binds(pat):
+                env[b_] = ANY
             return True
         if k == "bind":
             if pat.get("sub") and not self.bind(pat["sub"], v, env):
@@ -87,7 +135,7 @@ class Interp:
             return self.bind(pat["pat"], v, env) and self.truth(self.ev(pat["cond"], env))
         if k == "or":
             for p in pat["pats"]:
-                e2 = dict(env)
+                e2 = Env(env)
                 if self.bind(p, v, e2):
                     env.update(e2)
                     return True
@@ -132,7 +180,11 @@ class Interp:
             if not (isinstance(v, tuple) and v and v[0] in ("S", "C") and v[1] == name):
                 return False
             if v[0] == "C":
-                return not pat.get("fields")
+                # `Some { 0: pat }` (how `for` and `?` are desugared): positional fields of a tuple variant
+                fs_ = pat.get("fields") or []
+                if all(str(f_.get("name", "")).isdigit() and int(f_["name"]) < len(v[2]) for f_ in fs_):
+                    return all(self.bind(f_["pat"], v[2][int(f_["name"])], env) for f_ in fs_)
+                return not fs_
             return all(self.bind(f["pat"], v[2].get(f["name"], sym(f["name"])), env) for f in pat.get("fields", []))
         raise Unknown("pattern " + str(k))
 
@@ -150,10 +202,29 @@ class Interp:
             raise Unknown(str(n))
         k = n.get("k")
         if k == "block":
-            env = dict(env) if n.get("stmts") else env
-            for st in n.get("stmts", []):
-                self.stmt(st, env)
-            return self.ev(n["expr"], env) if n.get("expr") is not None else None
+            env = Env(env) if n.get("stmts") else env
+            try:
+                for st in n.get("stmts", []):
+                    self.stmt(st, env)
+                return self.ev(n["expr"], env) if n.get("expr") is not None else None
+            except _Return as r:
+                if n.get("inl_id") is not None and r.of == n["inl_id"]:
+                    return r.v          # the `return` of an inlined helper ends the helper's block
+                raise
+        if k == "loop" and self.loops in ("once", "zero"):
+            # `for pat in it { body }` = match into_iter(it) { mut iter => loop { match next(&mut iter) { None => break, Some(pat) => body } } }
+            if self.loops == "zero":
+                return None
+            self._next = getattr(self, "_next", 0) + 1
+            try:
+                self.ev(n["body"], env)
+            except (_Continue, _Break):
+                pass
+            return None
+        if k == "continue":
+            raise _Continue()
+        if k == "break":
+            raise _Break(self.ev(n["e"], env) if n.get("e") is not None else None)
         if k in ("addr", "use", "paren", "droptemps", "cast", "box"):
             return self.ev(n["e"], env)
         if k == "unary":
@@ -184,7 +255,7 @@ class Interp:
         if k == "if":
             c = n["cond"]
             if isinstance(c, dict) and c.get("k") == "letexpr":
-                e2 = dict(env)
+                e2 = Env(env)
                 if self.bind(c["pat"], self.ev(c["init"], env), e2):
                     return self.ev(n["then"], e2)
                 return self.ev(n["else"], env) if n.get("else") is not None else None
@@ -200,18 +271,18 @@ class Interp:
                 if tag(v) in ("Ok", "Some"):
                     return v[2][0] if v[2] else None
                 if tag(v) in ("Err", "None"):
-                    raise _Return(v)
+                    raise _Return(v, n.get("of"))
                 raise Unknown("`?` on " + show(v))
             v = self.ev(n["scrut"], env)
             for arm in n["arms"]:
-                e2 = dict(env)
+                e2 = Env(env)
                 if self.bind(arm["pat"], v, e2):
                     if arm.get("guard") is not None and not self.truth(self.ev(arm["guard"], e2)):
                         continue
                     return self.ev(arm["body"], e2)
             raise Unknown("no arm matches " + show(v))
         if k == "ret":
-            raise _Return(self.ev(n["e"], env) if n.get("e") is not None else None)
+            raise _Return(self.ev(n["e"], env) if n.get("e") is not None else None, n.get("of"))
         if k == "lit":
             return n.get("v")
         if k == "tup":
@@ -254,6 +325,8 @@ class Interp:
                 args = [self.ev(a, env) for a in n.get("args", [])]
                 if str(r.get("dk", "")).startswith("Ctor"):
                     return C(nm, *args)
+                if nm == "next" and self.loops == "once":
+                    return C("Some", ANY)          # the one abstract iteration of a `for` loop
                 if nm in self.hooks:
                     out = self.hooks[nm](self, None, args)
                     if out is not NotImplemented:
@@ -297,7 +370,10 @@ class Interp:
                 lhs = lhs["e"]
             if lhs.get("k") == "path" and (lhs.get("res") or {}).get("dk") == "Local":
                 v = self.ev(st["rhs"], env)
-                env[lhs["res"]["id"]] = v
+                if isinstance(env, Env):
+                    env.assign(lhs["res"]["id"], v)
+                else:
+                    env[lhs["res"]["id"]] = v
                 self.assigned[lhs["res"]["id"]] = v      # visible to the rule after the run (blocks copy their environment)
                 return
             raise Unknown("assignment to a place")
@@ -306,7 +382,7 @@ class Interp:
     def apply(self, fv, args):
         if isinstance(fv, tuple) and fv and fv[0] == "fn":
             _, params, body, cenv = fv
-            e2 = dict(cenv)
+            e2 = Env(cenv)
             for p, a in zip(params, args):
                 if not self.bind(p, a, e2):
                     raise Unknown("closure parameter pattern")
@@ -359,6 +435,29 @@ class Interp:
                 return C("Some", recv[1][-1]) if recv[1] else C("None")
             if name == "is_empty":
                 return not recv[1]
+        if self.loops in ("once", "zero") and isinstance(recv, tuple) and recv and recv[0] == "sym" and args and isinstance(args[-1], tuple) and args[-1] and args[-1][0] == "fn":
+            # internal iteration over a symbolic iterator, run zero times / once like the `for` loops
+            once = self.loops == "once"
+            if name in ("try_fold", "fold") and len(args) == 2:
+                r_ = self.apply(args[1], [args[0], ANY])
+                if once:
+                    return r_
+                if name == "fold":
+                    return args[0]
+                fam = {"Continue": "Continue", "Break": "Continue", "Ok": "Ok", "Err": "Ok", "Some": "Some", "None": "Some"}.get(tag(r_))
+                if fam is None:
+                    raise Unknown("try_fold result family of " + show(r_))
+                return C(fam, args[0])
+            if name in ("any", "all") and len(args) == 1:
+                return self.truth(self.apply(args[0], [ANY])) if once else (name == "all")
+            if name in ("for_each",) and len(args) == 1:
+                if once:
+                    self.apply(args[0], [ANY])
+                return None
+            if name in ("try_for_each",) and len(args) == 1:
+                r_ = self.apply(args[0], [ANY])
+                fam = {"Continue": "Continue", "Break": "Continue", "Ok": "Ok", "Err": "Ok", "Some": "Some", "None": "Some"}.get(tag(r_))
+                return r_ if once else (C(fam, None) if fam else r_)
         if name in ("to_string", "as_str", "to_vec", "as_bytes") and not args:
             return recv
         if name in ("clone", "as_ref", "as_mut", "copied", "cloned", "borrow", "to_owned", "as_deref", "into", "iter", "into_iter"):
@@ -421,9 +520,25 @@ class Interp:
     def run(self, body, env):
         self.steps = 0
         try:
-            return self.ev(body, dict(env))
+            return self.ev(body, Env(env))
         except _Return as r:
             return r.v
+
+
+def _binds(pat):
+    out = []
+    def w(n):
+        if isinstance(n, list):
+            for x in n:
+                w(x)
+        elif isinstance(n, dict):
+            if n.get("k") == "bind" and n.get("id") is not None:
+                out.append(n["id"])
+            for x in n.values():
+                if isinstance(x, (dict, list)):
+                    w(x)
+    w(pat)
+    return out
 
 
 def free_locals(node):
